@@ -22,6 +22,7 @@
 #include <stdio.h>
 #include <stdlib.h>
 #include <string.h>
+#include <sys/stat.h>
 #include <sys/wait.h>
 #include <unistd.h>
 
@@ -59,7 +60,7 @@ static int die_armed = 0;
 
 /* linked with -Wl,--wrap=m4ri_die: calls from other library objects land here */
 void __wrap_m4ri_die(const char *fmt, ...) {
-  (void)fmt;
+  if (getenv("VERIF_DIE_MSG")) fprintf(stderr, "m4ri_die: %s", fmt);
   if (die_armed) longjmp(die_jmp, 1);
   fprintf(stderr, "m4ri_die outside armed region\n");
   abort();
@@ -271,13 +272,16 @@ static void run_line(char *line) {
   const char *id = tok[0], *op = tok[1];
   long live_before = ip_live_count();
   ip_inside = 1;
-  if (strcmp(op, "alloc_seq") != 0 && parse_args(2) != 0) {
+  int raw = !strcmp(op, "alloc_seq") || !strcmp(op, "jcf_read") || !strcmp(op, "from_str") || !strcmp(op, "png_hdr");
+  if (!raw && parse_args(2) != 0) {
     ip_inside = 0;
     printf("%s bad-args\n", id);
     return;
   }
   long live_args = ip_live_count();
   int status;
+  ip_requests = 0; /* fault positions count from the first request of the call itself */
+  ip_armed = 1;
   die_armed = 1;
   if (setjmp(die_jmp) == 0) {
     status = dispatch(op);
@@ -285,6 +289,7 @@ static void run_line(char *line) {
     status = 2; /* died */
   }
   die_armed = 0;
+  ip_armed = 0;
   if (status == 1) {
     ip_inside = 0;
     printf("%s unknown-op\n", id);
@@ -293,7 +298,7 @@ static void run_line(char *line) {
   if (status == 2) {
     int fr = check_frames();
     ip_inside = 0;
-    printf("%s die # frame=%d\n", id, fr);
+    printf("%s die # frame=%d req=%ld faults=%ld\n", id, fr, ip_requests, ip_faults_fired);
     return;
   }
   int fr = check_frames();
@@ -303,10 +308,10 @@ static void run_line(char *line) {
     m4ri_mmc_cleanup();
     long live_end = ip_live_count();
     ip_inside = 0;
-    printf("%s ok%s # frame=%d leak=%ld\n", id, obuf, fr, live_end - live_before);
+    printf("%s ok%s # frame=%d leak=%ld req=%ld faults=%ld\n", id, obuf, fr, live_end - live_before, ip_requests, ip_faults_fired);
   } else {
     ip_inside = 0;
-    printf("%s ok%s # frame=%d\n", id, obuf, fr);
+    printf("%s ok%s # frame=%d req=%ld faults=%ld\n", id, obuf, fr, ip_requests, ip_faults_fired);
   }
   (void)live_args;
 }
